@@ -30,9 +30,19 @@ fn take_hits(h: &Hits) -> Vec<String> {
 async fn tcp_listener(l: TcpListener, name: String, hits: Hits, mode: &'static str) {
     loop {
         if let Ok((mut s, _)) = l.accept().await {
-            hit(&hits, &name);
+            if mode != "firstbyte" {
+                hit(&hits, &name);
+            }
+            let (hits2, name2) = (hits.clone(), name.clone());
             tokio::spawn(async move {
-                if mode == "silent" {
+                if mode == "firstbyte" {
+                    // what does the client say first? (0x16 = TLS handshake record, 0x30 = an LDAPMessage in the clear)
+                    let mut b = [0u8; 1];
+                    if let Ok(Ok(1)) = tokio::time::timeout(Duration::from_secs(2), s.read(&mut b)).await {
+                        hit(&hits2, &format!("{}:first={:02x}", name2, b[0]));
+                    }
+                    let _ = s.shutdown().await;
+                } else if mode == "silent" {
                     let mut buf = [0u8; 512];
                     loop {
                         match s.read(&mut buf).await {
@@ -67,6 +77,9 @@ enum Expect {
     OkVia(String),
     /// this listener contacted; Ok or Err both fine (e.g. ldaps against a non-TLS listener)
     ContactVia(String),
+    /// the listener named here (which records the first byte it receives) must see a TLS handshake
+    /// record first; the outcome is irrelevant (it does not speak TLS)
+    TlsFirst(String),
     /// must be Err with one of these classes, no listener contacted
     Err(Vec<&'static str>),
     /// must be Err (any class); listener contact irrelevant
@@ -198,6 +211,9 @@ pub fn table(ctx: &Ctx) -> Report {
         if let Some(l) = eph6 {
             tokio::spawn(tcp_listener(l, "tcp6:eph".into(), hits.clone(), "close"));
         }
+        let fb = TcpListener::bind("127.0.0.1:0").await.expect("firstbyte");
+        let pfb = fb.local_addr().unwrap().port();
+        tokio::spawn(tcp_listener(fb, "tcp4:fb".into(), hits.clone(), "firstbyte"));
         let silent = TcpListener::bind("127.0.0.1:0").await.expect("silent");
         let ps = silent.local_addr().unwrap().port();
         tokio::spawn(tcp_listener(silent, "tcp4:silent".into(), hits.clone(), "silent"));
@@ -279,6 +295,10 @@ pub fn table(ctx: &Ctx) -> Report {
         adds(format!("ldapi://{}", pct_path(&unix_plain)), Stream::TcpTo(pe), Expect::Err(vec!["MismatchedStreamType"]), "TCP stream with an ldapi URL naming a live socket");
         adds(format!("ldaps://127.0.0.1:{}", pe), Stream::Invalid, Expect::Err(vec!["MismatchedStreamType"]), "invalid (cloned) stream with ldaps");
         adds(format!("ldap://127.0.0.1:{}", pe), Stream::Invalid, Expect::Err(vec!["MismatchedStreamType"]), "invalid (cloned) stream with ldap");
+        // --- ldaps means TLS from the first byte, whatever the StartTLS flag says ---
+        for st in [false, true] {
+            cases.push(Case { url: format!("ldaps://127.0.0.1:{}", pfb), starttls: st, timeout_ms: Some(3000), stream: Stream::None, expect: Expect::TlsFirst("tcp4:fb".into()), max_ms: None, note: if st { "ldaps with the StartTLS flag set" } else { "ldaps" } });
+        }
         // --- an unknown scheme stays unknown whatever else is set ---
         for sch in ["http", "ldapx", "ldapss", "foo"] {
             cases.push(Case { url: format!("{}://127.0.0.1:{}", sch, pe), starttls: true, timeout_ms: Some(3000), stream: Stream::None, expect: Expect::Err(vec!["UnknownScheme"]), max_ms: None, note: "unknown scheme with StartTLS enabled" });
@@ -451,6 +471,13 @@ pub fn table(ctx: &Ctx) -> Report {
                 Expect::ContactVia(l) => {
                     if !matches_listener(l) {
                         rep.violation(format!("C18:connected-to-the-wrong-endpoint:{}", note.replace(' ', "-")), format!("expected listener {}: {}", l, desc), replay.clone());
+                    }
+                }
+                Expect::TlsFirst(l) => {
+                    let want = format!("{}:first=16", l);
+                    if hits.len() != 1 || hits[0] != want {
+                        let cleartext = hits.iter().any(|h| h.ends_with(":first=30"));
+                        rep.violation(format!("C18:{}:{}", if cleartext { "ldaps-connection-starts-with-a-cleartext-ldap-message" } else { "connected-to-the-wrong-endpoint" }, note.replace(' ', "-")), format!("expected {}: {}", want, desc), replay.clone());
                     }
                 }
                 Expect::Err(classes) => {
